@@ -326,6 +326,76 @@ def _analyse(args: tuple[str, str, str]) -> dict[str, Any]:
         "seconds": round(dt, 2)}
 
 
+def _control_width(ctx: Ctx) -> None:
+    """The controller kernels write `out[0..control_dims-1]`, the system
+    kernels read as many cells of `control`; both arrays are allocated by
+    `run_ode` from its parameter `controller_dim`, which defaults to 1.
+    Every call site of run_ode / multi_run_ode must therefore hand over the
+    control width of the controller / system it simulates."""
+    from sa.srcmodel import bound_args, inline_locals
+    repo = ctx.repo
+    mod = repo.module("moptipyapps.dynamic_control.ode")
+    targets = [f for f in (mod.funcs.get("run_ode"),
+                           mod.funcs.get("multi_run_ode")) if f is not None]
+    ctx.need(len(targets) == 2, "run_ode and multi_run_ode")
+    n = 0
+    for fi in repo.all_funcs():
+        if not fi.module.name.startswith("moptipyapps.dynamic_control"):
+            continue
+        for c in ast.walk(fi.node):
+            if not isinstance(c, ast.Call):
+                continue
+            callee = repo.resolve_expr(fi.module, c.func)
+            if callee not in targets:
+                continue
+            n += 1
+            args = bound_args(c, list(callee.params))
+            a = args.get("controller_dim")
+            what = f"{callee.name} call in {fi.qualname}"
+            if a is None:
+                ctx.ob("D13.3", fi, c, False,
+                       f"{fi.qualname}: {callee.name}(...) does not pass "
+                       "`controller_dim`: the control arrays get the default "
+                       "width 1, but the controller and the equations it "
+                       "simulates index them up to their control_dims - 1",
+                       construct=what + " (control width)")
+                continue
+            e = inline_locals(fi.node, a)
+            leaf = e.attr if isinstance(e, ast.Attribute) else (
+                e.id if isinstance(e, ast.Name) else None)
+            ok = leaf in ("controller_dim", "control_dims")
+            why = ""
+            if not ok and isinstance(e, ast.Attribute) and isinstance(
+                    e.value, ast.Name) and e.value.id == "self" and \
+                    fi.cls is not None:
+                # a field of the object: initialised from `.control_dims`
+                init = repo.lookup_method(fi.cls, "__init__")
+                for st in ast.walk(init.node) if init else []:
+                    tg = st.targets[0] if isinstance(
+                        st, ast.Assign) and len(st.targets) == 1 else (
+                        st.target if isinstance(st, ast.AnnAssign)
+                        and st.value is not None else None)
+                    if isinstance(tg, ast.Attribute) and tg.attr.lstrip(
+                            "_") == e.attr.lstrip("_").split("__")[-1]:
+                        v = inline_locals(init.node, st.value)
+                        lf = v.attr if isinstance(v, ast.Attribute) else (
+                            v.id if isinstance(v, ast.Name) else None)
+                        ok = lf in ("controller_dim", "control_dims")
+                        why = f" (field set from `{ast.unparse(v)}`)"
+            const = isinstance(e, ast.Constant)
+            ctx.ob("D13.3", fi, c, ok,
+                   f"{fi.qualname}: {callee.name} receives the control "
+                   f"width `{ast.unparse(a)}`{why}" if ok else
+                   f"{fi.qualname}: {callee.name} receives the constant "
+                   f"{ast.unparse(e)} as control width, not the "
+                   "controller's control_dims" if const else
+                   f"{fi.qualname}: the control width `{ast.unparse(a)}` "
+                   f"handed to {callee.name} is not recognised as the "
+                   "controller's control_dims",
+                   construct=what + " (control width)")
+    ctx.floor("control_width_call_sites", n, 3)
+
+
 def run(ctx: Ctx) -> None:
     repo = ctx.repo
     ctx.explanation = (
@@ -347,6 +417,7 @@ def run(ctx: Ctx) -> None:
              "validators of the package")
     t = table(repo)
     _dyn_contracts(ctx, t)
+    _control_width(ctx)
     # generated network kernels index state / params / out by the dimensions
     # they were generated for (C16 D16.4/D16.7): the cache must hand one out
     # only for exactly those dimensions
